@@ -412,6 +412,8 @@ type Clause struct {
 	Text string
 	E    Expr   // for requires/ensures/loopinv/panicsif/decreases
 	Locs []Expr // for assigns
+	Site int    // before/after clauses: call-site ordinal (-1: every site)
+	IfLocal, IfNotLocal string // before clauses: applies only where this local is (is not) defined
 	Line int
 	File string
 	Callee string // aftercall: callee name (suffix match)
@@ -447,6 +449,13 @@ type Pred struct {
 	Params []QVar
 	Body   Expr
 }
+// LocMacro: a named list of locations, "locs name(params) = loc, loc, ..." usable in assigns clauses.
+type LocMacro struct {
+	Pkg    string
+	Name   string
+	Params []QVar
+	Locs   []Expr
+}
 type Axiom struct {
 	Pkg   string
 	Name  string
@@ -469,6 +478,7 @@ type SpecDB struct {
 	FuncTypes  map[string]*Contract // key pkg.Type
 	Pures      map[string]*PureFunc // key name (global namespace)
 	Preds      map[string]*Pred
+	LocMacros  map[string]*LocMacro
 	Axioms     []*Axiom
 	Ghosts     map[string]*GhostField // key "Type.name" (Type qualified pkgpath.Type)
 	Sorts      map[string]bool
@@ -479,7 +489,7 @@ type SpecDB struct {
 
 func NewSpecDB() *SpecDB {
 	return &SpecDB{Contracts: map[string]*Contract{}, IfaceMeths: map[string]*Contract{}, FuncTypes: map[string]*Contract{},
-		Pures: map[string]*PureFunc{}, Preds: map[string]*Pred{}, Ghosts: map[string]*GhostField{}, Sorts: map[string]bool{}, ConstGlobs: map[string]bool{}, Sentinels: map[string]bool{}}
+		Pures: map[string]*PureFunc{}, Preds: map[string]*Pred{}, LocMacros: map[string]*LocMacro{}, Ghosts: map[string]*GhostField{}, Sorts: map[string]bool{}, ConstGlobs: map[string]bool{}, Sentinels: map[string]bool{}}
 }
 
 func normSpace(s string) string { return strings.Join(strings.Fields(s), " ") }
@@ -554,7 +564,7 @@ func (db *SpecDB) ParseSpecFile(path, pkgPath string, trusted bool) error {
 		word, rest := splitWord(l)
 		isHeader := false
 		switch word {
-		case "package", "func", "interface", "functype", "pure", "pred", "axiom", "lemma", "ghost", "sort", "constglobal", "sentinel",
+		case "package", "func", "interface", "functype", "pure", "pred", "locs", "axiom", "lemma", "ghost", "sort", "constglobal", "sentinel",
 			"requires", "ensures", "assigns", "decreases", "loop", "after", "before", "returns", "inline", "abstracted", "bitprecise", "nooverflow", "panics-if", "trusted", "noalloc", "prune", "maxpaths", "timeout", "noinline", "nosafety":
 			isHeader = true
 		}
@@ -645,6 +655,31 @@ func (db *SpecDB) ParseSpecFile(path, pkgPath string, trusted bool) error {
 					return fmt.Errorf("%s:%d: %v", path, ln+1, err)
 				}
 				db.Preds[pf.Name] = &Pred{Pkg: pk, Name: pf.Name, Params: pf.Params, Body: pf.Body}
+				return nil
+			}
+			cur = nil
+		case "locs":
+			t := rest
+			pendingText = &t
+			pk := pkgPath
+			pendingFinish = func(txt string) error {
+				i := strings.Index(txt, "=")
+				if i < 0 {
+					return fmt.Errorf("%s:%d: locs needs 'name(params) = loc, ...'", path, ln+1)
+				}
+				pf, err := parsePure(strings.TrimSpace(txt[:i]) + " bool")
+				if err != nil {
+					return fmt.Errorf("%s:%d: %v", path, ln+1, err)
+				}
+				lm := &LocMacro{Pkg: pk, Name: pf.Name, Params: pf.Params}
+				for _, part := range splitTop(txt[i+1:], ',') {
+					e, err := ParseSpecExpr(part)
+					if err != nil {
+						return fmt.Errorf("%s:%d: %v", path, ln+1, err)
+					}
+					lm.Locs = append(lm.Locs, e)
+				}
+				db.LocMacros[lm.Name] = lm
 				return nil
 			}
 			cur = nil
@@ -743,9 +778,23 @@ func (db *SpecDB) ParseSpecFile(path, pkgPath string, trusted bool) error {
 				btags = strings.Split(strings.ReplaceAll(tail[1:j], " ", ""), ",")
 				tail = tail[j+1:]
 			}
-			cl := &Clause{Kind: "beforecall", Tags: btags, Text: strings.TrimSpace(tail), Line: ln + 1, File: path, Callee: head[0]}
+			cl := &Clause{Kind: "beforecall", Tags: btags, Text: strings.TrimSpace(tail), Line: ln + 1, File: path, Callee: head[0], Site: -1}
+			// <callee>@N: only the N-th call site of that callee (source order, from 0)
+			if j := strings.Index(cl.Callee, "@"); j >= 0 {
+				fmt.Sscanf(cl.Callee[j+1:], "%d", &cl.Site)
+				cl.Callee = cl.Callee[:j]
+			}
 			if len(head) >= 3 && head[1] == "with" {
 				cl.With = head[2]
+			}
+			// "if <local>" / "ifnot <local>": only at call sites where that local variable has
+			// (has not) been defined on the path reaching the call
+			for hi := 1; hi+1 < len(head); hi++ {
+				if head[hi] == "if" {
+					cl.IfLocal = head[hi+1]
+				} else if head[hi] == "ifnot" {
+					cl.IfNotLocal = head[hi+1]
+				}
 			}
 			lastClause = cl
 			cur.Clauses = append(cur.Clauses, lastClause)
@@ -755,12 +804,33 @@ func (db *SpecDB) ParseSpecFile(path, pkgPath string, trusted bool) error {
 				return fmt.Errorf("%s:%d: clause outside block", path, ln+1)
 			}
 			rest += " "
+			// after <callee> let <ghost> = <expr>: names a value (typically a result) for later clauses; no assumption
+			if i := strings.Index(rest, " let "); i >= 0 && !strings.Contains(rest[:i], " assume ") {
+				head := strings.Fields(rest[:i])
+				body := rest[i+5:]
+				j := strings.Index(body, "=")
+				if j < 0 || len(head) == 0 {
+					return fmt.Errorf("%s:%d: after <callee> let <name> = <expr>", path, ln+1)
+				}
+				cl := &Clause{Kind: "afterlet", Text: strings.TrimSpace(body[j+1:]), Line: ln + 1, File: path, Callee: head[0], Site: -1, With: strings.TrimSpace(body[:j])}
+				if k := strings.Index(cl.Callee, "@"); k >= 0 {
+					fmt.Sscanf(cl.Callee[k+1:], "%d", &cl.Site)
+					cl.Callee = cl.Callee[:k]
+				}
+				lastClause = cl
+				cur.Clauses = append(cur.Clauses, lastClause)
+				break
+			}
 			i := strings.Index(rest, " assume ")
 			if i < 0 {
 				return fmt.Errorf("%s:%d: after ... assume <expr>", path, ln+1)
 			}
 			head := strings.Fields(rest[:i])
-			cl := &Clause{Kind: "aftercall", Text: strings.TrimSpace(rest[i+8:]), Line: ln + 1, File: path, Callee: head[0]}
+			cl := &Clause{Kind: "aftercall", Text: strings.TrimSpace(rest[i+8:]), Line: ln + 1, File: path, Callee: head[0], Site: -1}
+			if j := strings.Index(cl.Callee, "@"); j >= 0 {
+				fmt.Sscanf(cl.Callee[j+1:], "%d", &cl.Site)
+				cl.Callee = cl.Callee[:j]
+			}
 			if len(head) >= 3 && head[1] == "with" {
 				cl.With = head[2]
 			}
